@@ -158,6 +158,12 @@ UNITS = {
         'template': 'kmer_sym.vrs', 'backend': 'verus',
         'serves': ['C02'],
     },
+    'posmaps_count': {
+        'template': 'posmaps_count.vrs', 'backend': 'verus',
+        'serves': ['C03'],
+        # bundles of this unit that are decided by evaluation over a stated finite range (never counted as an unbounded proof)
+        'bounded_bundles': {r'^lemma_closed_\d$|^lemma_count_closed_form$': 'closed form of the column count: by(compute) evaluation of the canonical count for k = 1..7 only'},
+    },
     'n2k': {
         'template': 'n2k.vrs', 'backend': 'verus',
         'serves': ['C02', 'C03'],
@@ -205,16 +211,17 @@ PROPS = {
         'not_reached': [],
     },
     'C03': {
-        'units': ['posmaps', 'header', 'ctor'], 'deps': ['kmer_gen', 'n2k'], 'replay': 'c03,c12,c13',
+        'units': ['posmaps', 'header', 'ctor', 'posmaps_count'], 'deps': ['kmer_gen', 'n2k'], 'replay': 'c03,c12,c13',
         'level_text': 'Verus proves for the verbatim kmer_pos_maps and every k in 1..=15 that (pos_map, pos_kmer, count) is the order isomorphism between [0,count) '
                       'and the canonical k-mers (x <= revcomp(x)): canonical codes map to indices below count and back, the index->code map is strictly increasing '
                       '(hence index == rank in increasing code order), non-canonical entries are 0 and the map has no other key; and that the three header builders '
                       '(oligo.rs get_header, pybindings get_header, the table in OligoCgrComputer::new) return text_of(pos_kmer[i]) for every column i.',
         'level_note': 'trusted: Verus/Z3, vstd HashMap/HashSet model; assumed std contracts u64::pow (4^e), slice::sort (sorted permutation); R8 stubs Vec::from_iter(HashSet) '
                       '(duplicate-free enumeration), HashMap::iter (visits every entry once), chars().rev().collect(); imported contracts of rev_comp and numeric_to_kmer '
-                      '(proved in units kmer_gen, n2k, run as dependencies). The closed-form column count is a statement about the canonical set alone; it is not yet '
-                      'discharged deductively (listed under not_reached). join(delim) of the header vector is std.',
-        'not_reached': ['closed form count == (4^k + 4^(k/2))/2 (even k) / 4^k/2 (odd k): cardinality of the canonical set, independent of the code once the bijection contract holds',
+                      '(proved in units kmer_gen, n2k, run as dependencies). Unit posmaps_count proves (unbounded) that the index of a canonical k-mer equals its rank '
+                      '(number of canonical codes below it) and that count == number of canonical codes; the closed form (4^k+4^(k/2))/2 / 4^k/2 is decided by evaluation for k <= 7 only: BOUNDED, listed under bounded_standins. '
+                      'join(delim) of the header vector is std.',
+        'not_reached': ['closed form of the column count for k > 7 (a fact about the canonical set alone, independent of the code once the rank contract holds)',
                         'String::join with the delimiter and the write of the header line (std)'],
     },
     'C04': {
